@@ -63,7 +63,7 @@ func hSendProto(o Op) map[string]interface{} {
 		done <- 1
 	}()
 	go func() {
-		rres = runRefReceiver(r, refRecvCfg{Reqs: reqs, Seed: cfg.Seed, Stall: opt.boolean("stall")})
+		rres = runRefReceiver(r, refRecvCfg{Reqs: reqs, Seed: cfg.Seed, Stall: opt.boolean("stall"), Inline: opt.boolean("inline")})
 		r.closeSend()
 		done <- 2
 	}()
